@@ -168,6 +168,19 @@ CHECKS.update({
     ),
 })
 
+CHECKS.update({
+    'C11': dict(
+        script='checks/c11.py', category='model_checking', design='DESIGN.md §4 C11', engine='pysym+llsym',
+        text=('hash_name executed by pysym on strings of 0..8 symbolic code points equals the djb2 recurrence (every length by '
+              'the step, the loop body being the same term); the compiled zonedb/zonedbx tables, the published kZoneId* constants '
+              'and the link references are read through the real accessors on the IR (static constructors included), and each '
+              'table fact - id == djb2(name) == hash_name(name), uniqueness, ascending registry order with every name once, '
+              'constants == table, basic == extended, recorded baseline - is one SMT query over a symbolic table index (a '
+              'complete decision for a finite table).'),
+        technique='symbolic execution of the Python hash (pysym) + table facts read through llsym and decided by SMT over a symbolic index',
+    ),
+})
+
 NOT_APPLICABLE = {
     'C19': ('the generators are sampling loops around pytz/dateutil tzinfo objects backed by binary tz files and '
             'C-implemented datetime; neither CrossHair nor our symbolic executor can make those symbolic, and a '
